@@ -9,8 +9,9 @@ EVENT_SRCS = ["events/events_network_selectstats.c", "datastruct/timerqueue.c", 
 # util/monoclock.c is replaced by the harness's scripted clock, poll() by -Wl,--wrap=poll.
 
 BITS = [("r", 20), ("w", 20), ("rw", 14), ("e", 8), ("h", 8), ("re", 4), ("wh", 4), ("rwe", 4), ("eh", 3), ("rweh", 3), ("-", 6)]
-# let time pass before a poll fails with EINTR: fires on the unchanged tree (notes/C05.md, finding 1), so off by default
-EINTR_TIME = os.environ.get("VERIF_EVENTS_EINTR_TIME") == "1"
+# let time pass before a poll fails with EINTR: this fires on the unchanged tree (notes/C05.md, finding 1 = known
+# finding F11 in known_findings.json, reported as KNOWN-FINDING); VERIF_EVENTS_EINTR_TIME=0 leaves such cases out
+EINTR_TIME = os.environ.get("VERIF_EVENTS_EINTR_TIME", "1") != "0"
 USECS = [0, 0, 1, 999, 1000, 1001, 1500, 2000, 999999, 1000000, 1000001, 2500000, 2147483000000, 2147483000001, 5000]
 
 
